@@ -162,12 +162,9 @@ def run(ctx):
     def t_styles(case):
         run_history_case(ctx, case, 'styles')
 
-    ctx.run_test(t_styles, dict(case=style_cases()), max_examples=ctx.scale(300, 3000), name='styles')
-    if ctx.violation:
-        return
 
     # ---- 2. histories with % / %% variants --------------------------------------------------------
-    fresh_budget = [ctx.scale(0, 24)]
+    fresh_left = [0]          # fresh-interpreter comparisons left in this round (thorough tier only)
 
     @st.composite
     def history_cases(draw):
@@ -204,8 +201,8 @@ def run(ctx):
 
     def t_history(case):
         outcomes = run_history_case(ctx, case, 'history')
-        if fresh_budget[0] > 0 and len(case['steps']) >= 2:
-            fresh_budget[0] -= 1
+        if fresh_left[0] > 0 and len(case['steps']) >= 2:
+            fresh_left[0] -= 1
             k = len(case['steps']) - 1
             step = case['steps'][k]
             obs, verdict = judge_fresh(case['scope'], step)
@@ -221,9 +218,6 @@ def run(ctx):
                          'ORDER-DEPENDENT: after %d adaptations %r under %r gives %r, a fresh process gives %r'
                          % (k, R.assemble(step['parts']), step['style'], warm, R.jsonable_obs(obs)))
 
-    ctx.run_test(t_history, dict(case=history_cases()), max_examples=ctx.scale(350, 3500), name='history')
-    if ctx.violation:
-        return
 
     # ---- 3. live on SQLite ------------------------------------------------------------------------
     def t_live(batch):
@@ -244,7 +238,18 @@ def run(ctx):
                 what, msg = verdict
                 ctx.fail(dict(case, fail={'what': what}), msg)
 
-    ctx.run_test(t_live, dict(batch=LV.live_batches()), max_examples=ctx.scale(90, 1000), name='live')
+    # the three searches are interleaved in rounds, so that a wall-clock stop (overloaded machine) still leaves every
+    # class represented; round 0 carries the plain names
+    rounds = ctx.scale(1, 5)
+    for r in range(rounds):
+        suffix = '' if r == 0 else '_r%d' % r
+        fresh_left[0] = ctx.scale(0, 6)
+        for name, fn, strat, n in (('styles', t_styles, dict(case=style_cases()), ctx.scale(300, 400)),
+                                   ('history', t_history, dict(case=history_cases()), ctx.scale(350, 450)),
+                                   ('live', t_live, dict(batch=LV.live_batches()), ctx.scale(90, 150))):
+            ctx.run_test(fn, strat, max_examples=n, name=name + suffix)
+            if ctx.violation:
+                return
 
 
 # ---------------------------------------------------------------------------------------------------
@@ -324,7 +329,8 @@ def _pct_in_expression(case, message):
     g, l = R.build_scope(case['scope'])
     doubled = [src.replace('%', '%%') for src in R.expr_sources(step['parts'])]
     try:
-        predicted = [eval(compile(src, '<?>', 'eval'), g, l) for src in doubled]
+        codes = [compile(src, '<?>', 'eval') for src in doubled]     # all compiled before any is evaluated
+        predicted = [eval(code, g, l) for code in codes]
     except Exception as e:
         # e.g. `a %% 3` (SyntaxError), d['%%'] (KeyError)
         return case['fail']['what'] == 'error' and ('raised %s:' % type(e).__name__) in message
